@@ -53,7 +53,7 @@ def configs(gen):
             if not Q:
                 out.append(dict(gen=gen, schema=sc, **pre('pair'), nsym=2, kinds=ALL))
                 out.append(dict(gen=gen, schema=sc, **pre('one'), nsym=3, kinds=(1 << MOVE) | (1 << REMOVE) | (1 << SUB) | (1 << ROOT_AFTER)))
-                out.append(dict(gen=gen, schema=sc, **pre('fan3'), nsym=2, kinds=(1 << MOVE) | (1 << REMOVE) | (1 << SUB_AFTER)))
+                out.append(dict(gen=gen, schema=sc, **pre('fan3'), nsym=2, kinds=(1 << MOVE) | (1 << REMOVE)))
     return out
 
 HARNESS = {2: 'h_crates_v2.cpp', 1: 'h_crates_v1.cpp'}
@@ -126,11 +126,16 @@ def run(prop, assert_filter, gens=(2,), members=False):
     # the SQLite model against the real SQLite on the statement shapes of the table classes (random sequences, concrete values)
     nst = 0
     for gen in gens:
-        if gen != 2: continue
-        for idx in ([6, 0] if TIER == 'quick' else range(7)):
-            n, nseq, div = rel_common.validate(rel_common.ddl_for(2, idx), nseq=150 if TIER == 'quick' else 1500, seed=idx + 1)
-            nst += n
-            if div: ck.machinery.append('SQL-MODEL-VALIDATION divergence from the real SQLite (schema index %d): %s' % (idx, json.dumps(div, default=str)[:600]))
+        if gen == 2:
+            for idx in ([6, 0] if TIER == 'quick' else range(7)):
+                n, nseq, div = rel_common.validate(rel_common.ddl_for(2, idx), nseq=150 if TIER == 'quick' else 1500, seed=idx + 1)
+                nst += n
+                if div: ck.machinery.append('SQL-MODEL-VALIDATION divergence from the real SQLite (schema index %d): %s' % (idx, json.dumps(div, default=str)[:600]))
+        if gen == 1:
+            for idx in ([10, 0] if TIER == 'quick' else [0, 1, 3, 7, 9, 10]):
+                n, nseq, div = rel_common.validate_v1(rel_common.ddl_for(1, idx), nseq=80 if TIER == 'quick' else 600, seed=idx + 1)
+                nst += n
+                if div: ck.machinery.append('SQL-MODEL-VALIDATION divergence from the real SQLite (1.x schema index %d): %s' % (idx, json.dumps(div, default=str)[:600]))
     ck.extra['sql_model_validation'] = {'statements_compared_with_real_sqlite': nst}
     ck.extra['bounds'] = {'forest': 'prefix shapes of up to 5 live crates / depth 3 (%s), then 1 symbolic operation (all seven kinds, every operand, symbolic one-byte or empty name); '
                                     '2 symbolic operations from forests of 1-2 crates (thorough: 3 from one crate, 2 from a fan of 4)' % ', '.join(sorted(SHAPES)),
